@@ -652,6 +652,7 @@ var fsCallTable = map[string]fsClass{
 	"golang.org/x/sys/unix.CopyFileRange": fsNeutral, "golang.org/x/sys/unix.Mkfifo": fsNoFollow,
 	"github.com/containerd/continuity/fs.RootPath": fsNeutral,
 	"syscall.UTF16PtrFromString":                   fsNeutral, "syscall.UTF16FromString": fsNeutral, "golang.org/x/sys/windows.UTF16PtrFromString": fsNeutral,
+	"golang.org/x/sys/unix.Clonefileat":            fsNoFollow, // CLONE_NOFOLLOW flag checked separately
 	"golang.org/x/sys/unix.Clonefile":              fsNoFollow, "golang.org/x/sys/unix.Fclonefileat": fsNoFollow,
 }
 
